@@ -5,7 +5,7 @@ are reached by constructing the input.
 """
 from __future__ import annotations
 
-import datetime, importlib, io, os, shutil, subprocess, sys, tempfile, errno
+import datetime, time, importlib, io, os, shutil, subprocess, sys, tempfile, errno
 
 import numpy as np
 
@@ -64,6 +64,10 @@ class PyModel:
         self.modname = pkg.namespace.lower()
         self.pydir = os.path.join(self.dir, "out", "python")
         self._purge()
+        # the time zone of the process that imports and runs the generated Python code (module-level constants of the
+        # runtime are computed at import): a property of the deployment, chosen per model, UTC unless the workload says otherwise
+        os.environ["TZ"] = getattr(pkg, "process_tz", None) or "UTC"
+        time.tzset()
         sys.path.insert(0, self.pydir)
         try:
             self.mod = importlib.import_module(self.modname)
@@ -480,6 +484,8 @@ def perturb_representation(model: PyModel, t, v, rng, stats=None, fmt="binary"):
                     if stats is not None:
                         stats["py_datetime_as_datetime.datetime"] = stats.get("py_datetime_as_datetime.datetime", 0) + 1
                     # (the NDJSON form of an aware datetime carries "+00:00"; the plain one is used there)
+                    if fmt != "binary" and (getattr(model.pkg, "process_tz", None) or "UTC") != "UTC":
+                        return v      # (a naive datetime means local time: only in UTC is it the same instant)
                     return _dt.datetime(1970, 1, 1, tzinfo=_dt.timezone.utc if fmt == "binary" else None) + _dt.timedelta(microseconds=ns // 1000)
                 return np.datetime64(ns, "ns") if fmt == "binary" else v      # (NumPy scalars: the binary serializers take them, to_json does not)
             if t.name == "time" and hasattr(v, "numpy_value"):
@@ -512,6 +518,36 @@ def perturb_representation(model: PyModel, t, v, rng, stats=None, fmt="binary"):
     return v
 
 
+def reusing(chunk, after):
+    """A producer that keeps one object per kind of item, refills it in place for each item and hands the same object
+    over again (one acquisition buffer, one record instance updated per sample) — and scribbles over it once the
+    consumer has come back for the next item. What the consumer was handed is the content at hand-over."""
+    import copy
+    import enum
+    import numpy as np
+    buf = None
+    for x in chunk:
+        same = buf is not None and type(buf) is type(x)
+        if same and isinstance(x, np.ndarray) and x.ndim >= 1 and x.shape == buf.shape and x.dtype == buf.dtype and x.dtype != object:
+            buf[...] = x
+        elif same and isinstance(x, list):
+            buf[:] = x
+        elif same and isinstance(x, dict):
+            buf.clear()
+            buf.update(x)
+        elif same and hasattr(x, "__dict__") and not isinstance(x, (enum.Enum, type)):
+            buf.__dict__.clear()
+            buf.__dict__.update(x.__dict__)
+        elif isinstance(x, (np.ndarray, list, dict)) or (hasattr(x, "__dict__") and not isinstance(x, (enum.Enum, type))):
+            buf = copy.copy(x)
+        else:
+            buf = None
+            yield x
+            continue
+        after[0] += 1
+        yield buf
+
+
 def rewrite(model: PyModel, proto: M.Protocol, data: bytes, out_fmt: str, rng, stats=None):
     """Read every step into Python objects with the generated binary reader, put the values into another in-memory
     representation, and write them with a fresh generated writer (one call per step).  Returns (output, error)."""
@@ -531,6 +567,18 @@ def rewrite(model: PyModel, proto: M.Protocol, data: bytes, out_fmt: str, rng, s
         w = model.cls(proto, out_fmt, "Writer")(out)
         meths = model.step_methods(w, "write_")
         for i in range(len(proto.steps)):
+            if proto.steps[i][2] and len(pyvals[i]) >= 2:
+                # how the producer hands the items of a stream over: a list, a generator, or a generator that refills and
+                # re-yields one object (an acquisition loop without allocations) - each item is what it held at hand-over
+                how = rng.fork("handover", i).weighted([("list", 5), ("generator", 2), ("reusing", 3)])
+                if stats is not None:
+                    stats["py_stream_handed_over_as_" + how] = stats.get("py_stream_handed_over_as_" + how, 0) + 1
+                if how == "generator":
+                    meths[i](x for x in pyvals[i])
+                    continue
+                if how == "reusing":
+                    meths[i](reusing(pyvals[i], [0]))
+                    continue
             meths[i](pyvals[i])
         w.close()
     except Exception as e:  # noqa
